@@ -6,7 +6,7 @@
 namespace scen_pool {
 
 enum { K_COAWAIT, K_COAWAIT_AWT_READY, K_COAWAIT_AWT_PENDING, K_RUN_FN, K_RUN_DETACHED, K_RUN_ASYNC, K_RESUME_SP, K_COUNT };
-struct Job { uint8_t kind, yields, where; uint8_t again = 0; };   // again (co_await pool only): once on a worker the coroutine re-submits itself with co_await thread_pool::current()     // where: 0 submitted by the owner thread, 1 by a second submitter thread
+struct Job { uint8_t kind, yields, where; uint8_t again = 0; uint8_t big = 0; };   // big (run / run_detached): the closure is larger than the pool's small-object space (heap instance instead of in-place)   // again (co_await pool only): once on a worker the coroutine re-submits itself with co_await thread_pool::current()     // where: 0 submitted by the owner thread, 1 by a second submitter thread
 struct Prog { uint8_t workers; std::vector<Job> jobs; uint8_t stop_who; uint8_t stop_pos; uint8_t stop_yields; };
 // stop_who: 0 destructor only, 1 owner calls stop() before job #stop_pos, 2 a pool job calls stop(), 3 owner stop() at the end then destructor
 
@@ -24,13 +24,14 @@ inline Prog decode(hz::Reader &r, bool allow_self_stop) {
     for (unsigned i = 0; i < n; i++) p.jobs[i].where = (wmask >> i) & 1;
     uint8_t amask = r.u8();
     for (unsigned i = 0; i < n; i++) p.jobs[i].again = (uint8_t)(p.jobs[i].kind == K_COAWAIT && ((amask >> i) & 1));
+    for (unsigned i = 0; i < n; i++) p.jobs[i].big = (uint8_t)((p.jobs[i].kind == K_RUN_FN || p.jobs[i].kind == K_RUN_DETACHED) && ((amask >> (i + 4)) & 1));
     return p;
 }
 inline std::string describe(const Prog &p) {
     static const char *kn[] = {"co_await pool", "co_await pool(ready awaitable)", "co_await pool(pending awaitable)", "run(fn)", "run_detached(fn)", "run(async)", "resume(suspend_point)"};
     static const char *sw[] = {"destructor only", "owner stop() before job #", "a pool job calls stop() after job #", "owner stop() after all jobs, then destructor"};
     hz::Desc d; d << "pool(" << (unsigned)p.workers << " workers); jobs:";
-    for (auto &j : p.jobs) d << " [" << (j.where ? "2nd thread, " : "") << "yield*" << (unsigned)j.yields << ", " << kn[j.kind] << (j.again ? ", then co_await thread_pool::current()" : "") << "]";
+    for (auto &j : p.jobs) d << " [" << (j.where ? "2nd thread, " : "") << "yield*" << (unsigned)j.yields << ", " << kn[j.kind] << (j.again ? ", then co_await thread_pool::current()" : "") << (j.big ? ", 128-byte closure" : "") << "]";
     d << "; stop: " << sw[p.stop_who];
     if (p.stop_who == 1 || p.stop_who == 2) d << (unsigned)p.stop_pos;
     return d.s;
@@ -115,11 +116,15 @@ inline void submit(Ctx &c, int i) {
         } break;
         case K_RUN_FN: {
             Ctx *pc = &c;
-            c.int_futs[u].reset(new cocls::future<int>(pool.run([pc, i]() -> int { pc->mark_ran(i); return 7; })));
+            if (c.p->jobs[u].big) { std::array<unsigned char, 120> pad; pad.fill((unsigned char)(i + 1));
+                c.int_futs[u].reset(new cocls::future<int>(pool.run([pc, i, pad]() -> int { for (unsigned char x : pad) if (x != (unsigned char)(i + 1)) hz::fail("captured data of a large closure was corrupted"); pc->mark_ran(i); return 7; }))); }
+            else c.int_futs[u].reset(new cocls::future<int>(pool.run([pc, i]() -> int { pc->mark_ran(i); return 7; })));
         } break;
         case K_RUN_DETACHED: {
             Ctx *pc = &c;
-            pool.run_detached([pc, i, g = Guard(&r)]() { pc->j[(size_t)i].guard_called++; pc->mark_ran(i); });
+            if (c.p->jobs[u].big) { std::array<unsigned char, 120> pad; pad.fill((unsigned char)(i + 1));
+                pool.run_detached([pc, i, pad, g = Guard(&r)]() { for (unsigned char x : pad) if (x != (unsigned char)(i + 1)) hz::fail("captured data of a large closure was corrupted"); pc->j[(size_t)i].guard_called++; pc->mark_ran(i); }); }
+            else pool.run_detached([pc, i, g = Guard(&r)]() { pc->j[(size_t)i].guard_called++; pc->mark_ran(i); });
         } break;
         case K_RUN_ASYNC:
             c.int_futs[u].reset(new cocls::future<int>(pool.run(job_async(c, i))));
